@@ -618,29 +618,8 @@ Proof. apply frame_emit. Qed.
 
 (** ** Unlock, in its three phases *)
 
-(** maybeRemoveRenewer(NAME): LoadAndDelete + Stop *)
-Definition unlock_stop (cc : ccfg) (name : str) (st : cstate) : cstate :=
-  if cc_noauto cc then st else
-  match cs_map st !! name with
-  | Some i => stop_renewer i (st <| cs_map := delete name (cs_map st) |>)
-  | None => st
-  end.
-(** the Unlock RPC *)
-Definition unlock_rpc (j : nat) (h : hold) (st1 : cstate) : cstate :=
-  if cs_closed st1 then emit (TRpcFail KUnlock j (now st1)) st1
-  else let '(srv', outs) := srv_event (EUnlock (Some csid) (h_name h) (h_key h)) (cs_srv st1) in
-       match last outs with
-       | Some (OResp (RUnlock u e)) =>
-           emit (TRpc KUnlock j (h_name h) (h_key h) 0 (now st1) u e) (st1 <| cs_srv := srv' |>)
-       | _ => st1 <| cs_srv := srv' |>
-       end.
-(** the ghost flag *)
-Definition mark_unl (j : nat) (st2 : cstate) : cstate :=
-  match cs_holds st2 !! j with
-  | Some h2 => st2 <| cs_holds := <[j := h2 <| h_unl := true |>]> (cs_holds st2) |>
-  | None => st2
-  end.
-
+(** [unlock_stop] (maybeRemoveRenewer(NAME): LoadAndDelete + Stop), [unlock_rpc] (the Unlock RPC) and [mark_unl]
+    (the ghost flag) are defined in Model/Client.v; [do_unlock] is their composition *)
 Lemma do_unlock_eq cc j st :
   do_unlock cc j st =
     match cs_holds st !! j with
@@ -756,6 +735,314 @@ Proof.
   rewrite <- (list_insert_id (cs_holds st) j h) at 1 by done.
   apply Forall2_insert; [reflexivity|]. destruct h. unfold hold_le, exit_mono. cbn. split_and!; eauto.
 Qed.
+
+(** ** Unlock run in steps: [do_unlock_begin] = emit ; unlock_stop ; mark_unl, [do_unlock_send] = unlock_rpc,
+       [do_unlock_end] = emit *)
+
+Lemma do_unlock_begin_eq cc j st :
+  do_unlock_begin cc j st =
+    match cs_holds st !! j with
+    | None => st
+    | Some h =>
+        if negb (h_locked h) then st else
+        let st1 := unlock_stop cc (h_name h) (emit (TUnlockCall j (now st)) st) in
+        match cs_crashed st1 with
+        | Some _ => st1
+        | None => mark_unl j st1
+        end
+    end.
+Proof. reflexivity. Qed.
+
+Lemma do_unlock_send_eq j st :
+  do_unlock_send j st =
+    match cs_holds st !! j with
+    | None => st
+    | Some h => if negb (h_locked h) then st else unlock_rpc j h st
+    end.
+Proof. reflexivity. Qed.
+
+Lemma do_unlock_end_eq j st :
+  do_unlock_end j st =
+    match cs_holds st !! j with
+    | None => st
+    | Some h => if negb (h_locked h) then st else emit (TUnlockRet j (now st)) st
+    end.
+Proof. reflexivity. Qed.
+
+(** on a hold that does not exist or was not granted the three steps do nothing (Lock.Unlock: ErrLockNotLocked) *)
+Lemma do_unlock_begin_noop cc j st :
+  (∀ h, cs_holds st !! j = Some h → h_locked h = false) → do_unlock_begin cc j st = st.
+Proof.
+  intros H. rewrite do_unlock_begin_eq. destruct (cs_holds st !! j) as [h|]; [|done]. by rewrite (H h eq_refl).
+Qed.
+Lemma do_unlock_send_noop j st :
+  (∀ h, cs_holds st !! j = Some h → h_locked h = false) → do_unlock_send j st = st.
+Proof.
+  intros H. rewrite do_unlock_send_eq. destruct (cs_holds st !! j) as [h|]; [|done]. by rewrite (H h eq_refl).
+Qed.
+Lemma do_unlock_end_noop j st :
+  (∀ h, cs_holds st !! j = Some h → h_locked h = false) → do_unlock_end j st = st.
+Proof.
+  intros H. rewrite do_unlock_end_eq. destruct (cs_holds st !! j) as [h|]; [|done]. by rewrite (H h eq_refl).
+Qed.
+
+(** on a granted hold *)
+Lemma do_unlock_begin_locked cc j st h : cs_holds st !! j = Some h → h_locked h = true →
+  do_unlock_begin cc j st =
+    let st1 := unlock_stop cc (h_name h) (emit (TUnlockCall j (now st)) st) in
+    match cs_crashed st1 with
+    | Some _ => st1
+    | None => mark_unl j st1
+    end.
+Proof. intros Hh Hl. rewrite do_unlock_begin_eq, Hh, Hl. reflexivity. Qed.
+Lemma do_unlock_send_locked j st h : cs_holds st !! j = Some h → h_locked h = true →
+  do_unlock_send j st = unlock_rpc j h st.
+Proof. intros Hh Hl. rewrite do_unlock_send_eq, Hh, Hl. reflexivity. Qed.
+Lemma do_unlock_end_locked j st h : cs_holds st !! j = Some h → h_locked h = true →
+  do_unlock_end j st = emit (TUnlockRet j (now st)) st.
+Proof. intros Hh Hl. rewrite do_unlock_end_eq, Hh, Hl. reflexivity. Qed.
+
+(** *** do_unlock_begin *)
+
+(** Stop() and the trace *)
+Lemma stop_renewer_trace_eq j st :
+  cs_trace (stop_renewer j st) =
+    match ren_of st j with
+    | Some r => match r_pc r with
+                | PExited => cs_trace st ++ [TCrash (CrSendClosed j) (now st)]
+                | _ => cs_trace st
+                end
+    | None => cs_trace st
+    end.
+Proof.
+  unfold stop_renewer. destruct (ren_of st j) as [r|] eqn:Hr; [|done].
+  destruct (r_pc r) eqn:Hp; rewrite ?set_ren_trace; done.
+Qed.
+
+(** maybeRemoveRenewer and the trace: nothing, or the panic of Stop() on a goroutine that has returned *)
+Lemma unlock_stop_trace_cases cc name st :
+  cs_trace (unlock_stop cc name st) = cs_trace st ∧ cs_crashed (unlock_stop cc name st) = cs_crashed st ∨
+  ∃ i r, cc_noauto cc = false ∧ cs_map st !! name = Some i ∧ ren_of st i = Some r ∧ r_pc r = PExited ∧
+         cs_crashed (unlock_stop cc name st) = Some (CrSendClosed i) ∧
+         cs_trace (unlock_stop cc name st) = cs_trace st ++ [TCrash (CrSendClosed i) (now st)].
+Proof.
+  unfold unlock_stop. destruct (cc_noauto cc); [by left|].
+  destruct (cs_map st !! name) as [i|]; [|by left].
+  rewrite stop_renewer_trace_eq, stop_renewer_crashed.
+  change (ren_of (st <| cs_map := delete name (cs_map st) |>) i) with (ren_of st i).
+  destruct (ren_of st i) as [r|] eqn:Hr; [|by left].
+  destruct (r_pc r) eqn:Hp; try (by left). right. exists i, r. done.
+Qed.
+
+(** the first two phases of [do_unlock_begin]: apart from the deletion in renewMap, a frame on the renewer filed under
+    the name (the trace grows by the call event and possibly the panic) *)
+Lemma unlock_begin_stop_frame adv cc name e st :
+  ren_frame adv (λ i, cc_noauto cc = false ∧ cs_map st !! name = Some i)
+    (st <| cs_map := cs_map (unlock_stop cc name st) |>) (unlock_stop cc name (emit e st)).
+Proof.
+  eapply ren_frame_trans; [apply (frame_emit adv _ e)|].
+  eapply ren_frame_ext_l; [..|apply (unlock_stop_frame adv cc name (emit e st))]; try done.
+  cbn. by rewrite !unlock_stop_map.
+Qed.
+
+(** [do_unlock_begin] as a whole: a frame on the stopped renewer (from the state with the renewMap entry of the hold's
+    name deleted), then — unless Stop() panicked — the ghost flag of hold j *)
+Lemma do_unlock_begin_frame adv cc j st :
+  ∃ st1,
+    ren_frame adv (λ i, cc_noauto cc = false ∧ ∃ h, cs_holds st !! j = Some h ∧ cs_map st !! h_name h = Some i)
+      (st <| cs_map := cs_map (do_unlock_begin cc j st) |>) st1 ∧
+    (do_unlock_begin cc j st = st1 ∨ cs_crashed st1 = None ∧ do_unlock_begin cc j st = mark_unl j st1).
+Proof.
+  rewrite do_unlock_begin_eq. destruct (cs_holds st !! j) as [h|] eqn:Hh.
+  2: { exists st. split; [|by left]. eapply ren_frame_ext_l; [..|apply ren_frame_refl]; done. }
+  destruct (h_locked h); cbn [negb]; cbv zeta.
+  2: { exists st. split; [|by left]. eapply ren_frame_ext_l; [..|apply ren_frame_refl]; done. }
+  set (st1 := unlock_stop cc (h_name h) (emit (TUnlockCall j (now st)) st)). exists st1. split.
+  - assert (cs_map (match cs_crashed st1 with Some _ => st1 | None => mark_unl j st1 end)
+            = cs_map (unlock_stop cc (h_name h) st)) as ->.
+    { destruct (cs_crashed st1); [|rewrite (proj1 (proj2 (mark_unl_other j st1)))];
+        unfold st1; by rewrite !unlock_stop_map. }
+    eapply ren_frame_weaken; [..|apply unlock_begin_stop_frame]; [done|]. intros i [? ?]. eauto.
+  - destruct (cs_crashed st1) eqn:Hc; [by left|by right].
+Qed.
+
+Lemma do_unlock_begin_srv cc j st : cs_srv (do_unlock_begin cc j st) = cs_srv st.
+Proof.
+  rewrite do_unlock_begin_eq. destruct (cs_holds st !! j) as [h|]; [|done]. destruct (h_locked h); [|done].
+  cbn [negb]. cbv zeta. destruct (cs_crashed _); [|rewrite (proj1 (mark_unl_other _ _))]; by rewrite unlock_stop_srv.
+Qed.
+
+Lemma do_unlock_begin_now cc j st : now (do_unlock_begin cc j st) = now st.
+Proof. unfold now. by rewrite do_unlock_begin_srv. Qed.
+
+(** renewMap: the entry under the hold's name is deleted *)
+Lemma do_unlock_begin_map cc j st :
+  cs_map (do_unlock_begin cc j st) =
+    match cs_holds st !! j with
+    | Some h => if h_locked h && negb (cc_noauto cc) then delete (h_name h) (cs_map st) else cs_map st
+    | None => cs_map st
+    end.
+Proof.
+  rewrite do_unlock_begin_eq. destruct (cs_holds st !! j) as [h|]; [|done]. destruct (h_locked h); [|done].
+  cbn [negb andb]. cbv zeta.
+  destruct (cs_crashed _); [|rewrite (proj1 (proj2 (mark_unl_other _ _)))]; rewrite unlock_stop_map;
+    by destruct (cc_noauto cc).
+Qed.
+
+(** what does not change at all; the trace only grows *)
+Lemma do_unlock_begin_other cc j st :
+  cs_srv (do_unlock_begin cc j st) = cs_srv st ∧ cs_closed (do_unlock_begin cc j st) = cs_closed st ∧
+  cs_parked (do_unlock_begin cc j st) = cs_parked st ∧ cs_ncomp (do_unlock_begin cc j st) = cs_ncomp st ∧
+  length (cs_holds (do_unlock_begin cc j st)) = length (cs_holds st) ∧
+  cs_trace st `prefix_of` cs_trace (do_unlock_begin cc j st).
+Proof.
+  split; [apply do_unlock_begin_srv|].
+  destruct (do_unlock_begin_frame false cc j st) as (st1 & F & [->|[_ ->]]).
+  - split_and!; [apply (rf_closed _ _ _ _ F)|apply (rf_parked _ _ _ _ F)|apply (rf_ncomp _ _ _ _ F)|
+                 apply (frame_length _ _ _ _ F)|apply (rf_trace _ _ _ _ F)].
+  - destruct (mark_unl_other j st1) as (_ & _ & _ & -> & -> & -> & ->).
+    rewrite <- (Forall2_length _ _ _ (mark_unl_le j st1)).
+    split_and!; [apply (rf_closed _ _ _ _ F)|apply (rf_parked _ _ _ _ F)|apply (rf_ncomp _ _ _ _ F)|
+                 apply (frame_length _ _ _ _ F)|apply (rf_trace _ _ _ _ F)].
+Qed.
+
+(** the holds that are neither hold j nor the one whose renewer is filed under its name are untouched *)
+Lemma do_unlock_begin_holds_other cc j st i : i ≠ j →
+  (∀ h, cc_noauto cc = false → cs_holds st !! j = Some h → cs_map st !! h_name h ≠ Some i) →
+  cs_holds (do_unlock_begin cc j st) !! i = cs_holds st !! i.
+Proof.
+  intros Hne Hi. destruct (do_unlock_begin_frame false cc j st) as (st1 & F & [->|[_ ->]]).
+  - rewrite (rf_others _ _ _ _ F); [done|]. intros (Hna & h & Hh & Hm). by apply (Hi h).
+  - rewrite mark_unl_holds, decide_False by done.
+    rewrite (rf_others _ _ _ _ F); [done|]. intros (Hna & h & Hh & Hm). by apply (Hi h).
+Qed.
+
+(** the trace: nothing (no such granted hold), the call event, or the call event and the panic of Stop() *)
+Lemma do_unlock_begin_trace cc j st :
+  do_unlock_begin cc j st = st ∨
+  ∃ h, cs_holds st !! j = Some h ∧ h_locked h = true ∧
+    (cs_crashed (do_unlock_begin cc j st) = cs_crashed st ∧
+     cs_trace (do_unlock_begin cc j st) = cs_trace st ++ [TUnlockCall j (now st)] ∨
+     ∃ i r, cc_noauto cc = false ∧ cs_map st !! h_name h = Some i ∧ ren_of st i = Some r ∧ r_pc r = PExited ∧
+          cs_crashed (do_unlock_begin cc j st) = Some (CrSendClosed i) ∧
+          cs_trace (do_unlock_begin cc j st) = cs_trace st ++ [TUnlockCall j (now st); TCrash (CrSendClosed i) (now st)]).
+Proof.
+  rewrite do_unlock_begin_eq. destruct (cs_holds st !! j) as [h|] eqn:Hh; [|by left].
+  destruct (h_locked h) eqn:Hl; [|by left]. cbn [negb]. cbv zeta. right. exists h. split_and!; try done.
+  set (st0 := emit (TUnlockCall j (now st)) st).
+  destruct (unlock_stop_trace_cases cc (h_name h) st0) as [[T C]|(i & r & Hna & Hm & Hr & Hp & C & T)].
+  - left. destruct (cs_crashed (unlock_stop cc (h_name h) st0)) eqn:Hc.
+    + split; [exact C|exact T].
+    + destruct (mark_unl_other j (unlock_stop cc (h_name h) st0)) as (_ & _ & -> & _ & _ & -> & _).
+      split; [exact C|exact T].
+  - right. exists i, r. rewrite C. split_and!; try done. rewrite T. cbn. by rewrite <- app_assoc.
+Qed.
+
+(** a panic in [do_unlock_begin]: Stop() on the renewer filed under the hold's name, whose goroutine has returned *)
+Lemma do_unlock_begin_crashed cc j st c : cs_crashed st = None → cs_crashed (do_unlock_begin cc j st) = Some c →
+  ∃ h i r, cs_holds st !! j = Some h ∧ cc_noauto cc = false ∧ cs_map st !! h_name h = Some i ∧ c = CrSendClosed i ∧
+           ren_of st i = Some r ∧ r_pc r = PExited.
+Proof.
+  intros Hn. rewrite do_unlock_begin_eq. destruct (cs_holds st !! j) as [h|] eqn:Hh; [|congruence].
+  destruct (h_locked h); [|cbn; congruence]. cbn [negb]. cbv zeta.
+  destruct (cs_crashed (unlock_stop cc (h_name h) (emit (TUnlockCall j (now st)) st))) as [c'|] eqn:Hc.
+  - rewrite Hc. intros [= <-]. apply unlock_stop_crashed in Hc as (i & r & H); [|done]. exists h, i, r. tauto.
+  - destruct (mark_unl_other j (unlock_stop cc (h_name h) (emit (TUnlockCall j (now st)) st))) as (_ & _ & -> & _).
+    congruence.
+Qed.
+
+Lemma do_unlock_begin_le cc j st : Forall2 hold_le (cs_holds st) (cs_holds (do_unlock_begin cc j st)).
+Proof.
+  destruct (do_unlock_begin_frame false cc j st) as (st1 & F & [->|[_ ->]]).
+  - apply (Forall2_impl _ _ _ _ (rf_holds _ _ _ _ F)), hold_sim_le.
+  - etrans; [|apply mark_unl_le]. apply (Forall2_impl _ _ _ _ (rf_holds _ _ _ _ F)), hold_sim_le.
+Qed.
+
+(** unless Stop() panicked the ghost flag of hold j is set when the call begins *)
+Lemma do_unlock_begin_unl cc j st h : cs_holds st !! j = Some h → h_locked h = true →
+  cs_crashed (do_unlock_begin cc j st) = None →
+  ∃ h', cs_holds (do_unlock_begin cc j st) !! j = Some h' ∧ h_unl h' = true ∧ hold_le h h'.
+Proof.
+  intros Hh Hl Hc. pose proof (do_unlock_begin_le cc j st) as LE.
+  destruct (Forall2_lookup_l _ _ _ _ _ LE Hh) as (h' & Hh' & L). exists h'. split_and!; try done.
+  rewrite (do_unlock_begin_locked cc j st h Hh Hl) in Hc, Hh'. cbv zeta in Hc, Hh'.
+  destruct (cs_crashed (unlock_stop _ _ _)) eqn:Hc1; [congruence|].
+  rewrite mark_unl_holds, decide_True in Hh' by done.
+  destruct (cs_holds _ !! j); [|done]. by injection Hh' as <-.
+Qed.
+
+(** *** do_unlock_send: cs_srv (one EUnlock of the hold's (name, key)) and the trace *)
+
+Lemma do_unlock_send_frame adv J j st : ren_frame adv J st (do_unlock_send j st).
+Proof.
+  rewrite do_unlock_send_eq. destruct (cs_holds st !! j) as [h|]; [|apply ren_frame_refl].
+  destruct (h_locked h); cbn [negb]; [apply unlock_rpc_frame|apply ren_frame_refl].
+Qed.
+
+Lemma do_unlock_send_holds j st : cs_holds (do_unlock_send j st) = cs_holds st.
+Proof.
+  rewrite do_unlock_send_eq. destruct (cs_holds st !! j) as [h|]; [|done]. destruct (h_locked h); [|done]. cbn [negb].
+  by destruct (unlock_rpc_spec j h st) as (s2 & _ & -> & _).
+Qed.
+
+Lemma do_unlock_send_crashed j st : cs_crashed (do_unlock_send j st) = cs_crashed st.
+Proof.
+  rewrite do_unlock_send_eq. destruct (cs_holds st !! j) as [h|]; [|done]. destruct (h_locked h); [|done]. cbn [negb].
+  by destruct (unlock_rpc_spec j h st) as (s2 & _ & _ & _ & -> & _).
+Qed.
+
+Lemma do_unlock_send_map j st : cs_map (do_unlock_send j st) = cs_map st.
+Proof. apply (rf_map _ _ _ _ (do_unlock_send_frame false (λ _, False) j st)). Qed.
+
+(** the server state after [do_unlock_send]: unchanged, or one EUnlock of the hold's (name, key) *)
+Lemma do_unlock_send_srv j st :
+  cs_srv (do_unlock_send j st) = cs_srv st ∨
+  ∃ h, cs_holds st !! j = Some h ∧ h_locked h = true ∧ cs_closed st = false ∧
+    cs_srv (do_unlock_send j st) = fst (srv_event (EUnlock (Some csid) (h_name h) (h_key h)) (cs_srv st)).
+Proof.
+  rewrite do_unlock_send_eq. destruct (cs_holds st !! j) as [h|] eqn:Hh; [|by left].
+  destruct (h_locked h) eqn:Hl; [|by left]. cbn [negb].
+  destruct (unlock_rpc_spec j h st) as (s2 & -> & _ & _ & _ & _ & _ & _ & _ & [->|[Hc ->]] & _); [by left|right].
+  exists h. done.
+Qed.
+
+Lemma do_unlock_send_le j st : Forall2 hold_le (cs_holds st) (cs_holds (do_unlock_send j st)).
+Proof. rewrite do_unlock_send_holds. reflexivity. Qed.
+
+(** *** do_unlock_end: only the trace *)
+
+Lemma do_unlock_end_frame adv J j st : ren_frame adv J st (do_unlock_end j st).
+Proof.
+  rewrite do_unlock_end_eq. destruct (cs_holds st !! j) as [h|]; [|apply ren_frame_refl].
+  destruct (h_locked h); cbn [negb]; [apply frame_emit|apply ren_frame_refl].
+Qed.
+
+Lemma do_unlock_end_other j st :
+  cs_srv (do_unlock_end j st) = cs_srv st ∧ cs_map (do_unlock_end j st) = cs_map st ∧
+  cs_holds (do_unlock_end j st) = cs_holds st ∧ cs_crashed (do_unlock_end j st) = cs_crashed st ∧
+  cs_closed (do_unlock_end j st) = cs_closed st ∧ cs_parked (do_unlock_end j st) = cs_parked st ∧
+  cs_ncomp (do_unlock_end j st) = cs_ncomp st.
+Proof.
+  rewrite do_unlock_end_eq. destruct (cs_holds st !! j) as [h|]; [|done]. by destruct (h_locked h).
+Qed.
+
+Lemma do_unlock_end_srv j st : cs_srv (do_unlock_end j st) = cs_srv st. Proof. apply do_unlock_end_other. Qed.
+Lemma do_unlock_end_map j st : cs_map (do_unlock_end j st) = cs_map st. Proof. apply do_unlock_end_other. Qed.
+Lemma do_unlock_end_holds j st : cs_holds (do_unlock_end j st) = cs_holds st. Proof. apply do_unlock_end_other. Qed.
+Lemma do_unlock_end_crashed j st : cs_crashed (do_unlock_end j st) = cs_crashed st. Proof. apply do_unlock_end_other. Qed.
+
+Lemma do_unlock_end_trace j st :
+  cs_trace (do_unlock_end j st) =
+    match cs_holds st !! j with
+    | Some h => if h_locked h then cs_trace st ++ [TUnlockRet j (now st)] else cs_trace st
+    | None => cs_trace st
+    end.
+Proof.
+  rewrite do_unlock_end_eq. destruct (cs_holds st !! j) as [h|]; [|done]. by destruct (h_locked h).
+Qed.
+
+Lemma do_unlock_end_le j st : Forall2 hold_le (cs_holds st) (cs_holds (do_unlock_end j st)).
+Proof. rewrite do_unlock_end_holds. reflexivity. Qed.
 
 (** ** Lock / TryLock *)
 
@@ -933,6 +1220,30 @@ Proof.
     apply static_eq in S1 as (-> & _). apply static_eq in S0 as (-> & _). exact M1.
 Qed.
 
+Lemma basic_emit cc e st : basic cc st → basic cc (emit e st).
+Proof. intros B. eapply basic_ext; [..|exact B]; done. Qed.
+
+Lemma basic_do_unlock_begin cc j st : basic cc st → basic cc (do_unlock_begin cc j st).
+Proof.
+  intros B. rewrite do_unlock_begin_eq. destruct (cs_holds st !! j) as [h|] eqn:Hh; [|done].
+  destruct (h_locked h) eqn:Hl; [|done]. cbn [negb]. cbv zeta.
+  pose proof (basic_emit cc (TUnlockCall j (now st)) st B) as B0.
+  destruct (basic_unlock_stop cc (h_name h) _ B0) as [B1 M1].
+  pose proof (unlock_stop_frame false cc (h_name h) (emit (TUnlockCall j (now st)) st)) as F1.
+  set (st1 := unlock_stop cc (h_name h) (emit (TUnlockCall j (now st)) st)) in *.
+  destruct (cs_crashed st1); [done|].
+  apply basic_mark_unl; [done|].
+  intros h1 Hh1. destruct (frame_lookup_rev _ _ _ _ _ _ F1 Hh1) as (h0 & Hh0 & ((S0 & _) & _)).
+  change (cs_holds st !! j = Some h0) in Hh0. rewrite Hh in Hh0. injection Hh0 as <-.
+  apply static_eq in S0 as (-> & _). exact M1.
+Qed.
+
+Lemma basic_do_unlock_send cc j st : basic cc st → basic cc (do_unlock_send j st).
+Proof. apply (basic_frame cc false (λ _, False)), do_unlock_send_frame. Qed.
+
+Lemma basic_do_unlock_end cc j st : basic cc st → basic cc (do_unlock_end j st).
+Proof. apply (basic_frame cc false (λ _, False)), do_unlock_end_frame. Qed.
+
 Lemma basic_do_acquire cc b name T size st : basic cc st → basic cc (do_acquire cc b name T size st).
 Proof.
   intros B. destruct (do_acquire_cases cc b name T size st) as [[Hc ->]|[[Hc ->]|(Hc & srv' & locked & key & e & rest & Hs & ->)]].
@@ -983,6 +1294,9 @@ Proof.
   - by apply basic_do_acquire.
   - by apply basic_do_acquire.
   - by apply basic_do_unlock.
+  - by apply basic_do_unlock_begin.
+  - by apply basic_do_unlock_send.
+  - by apply basic_do_unlock_end.
   - by apply basic_do_close.
   - eapply basic_frame; [apply do_advance_frame|done].
   - eapply basic_frame; [apply (set_arm_frame false)|done].
@@ -1046,6 +1360,9 @@ Proof.
   - destruct (Hacq true name T size) as [?|(hn & ? & ?)]; [by left|right]. exists hn. split; [done|]. exists name, T, size. auto.
   - destruct (Hacq false name T size) as [?|(hn & ? & ?)]; [by left|right]. exists hn. split; [done|]. exists name, T, size. auto.
   - left. apply do_unlock_le.
+  - left. apply do_unlock_begin_le.
+  - left. apply do_unlock_send_le.
+  - left. apply do_unlock_end_le.
   - left. eapply Forall2_impl; [apply do_close_sim|apply hold_sim_le].
   - left. eapply frame_holds_le, do_advance_frame.
   - left. eapply frame_holds_le, (set_arm_frame false).
@@ -1129,6 +1446,9 @@ Proof.
     fold (now (unlock_rpc j h (unlock_stop cc (h_name h) st))).
     rewrite (rf_now _ _ _ _ (unlock_rpc_frame false (λ _, False) j h _)); [done|].
     unfold nowait. by rewrite unlock_stop_srv.
+  - apply Hsame, do_unlock_begin_now.
+  - apply Hsame. by apply (rf_now _ _ _ _ (do_unlock_send_frame false (λ _, False) j st)).
+  - apply Hsame. by apply (rf_now _ _ _ _ (do_unlock_end_frame false (λ _, False) j st)).
   - apply Hsame. rewrite do_close_eq. cbv zeta.
     assert (now (stop_all (close_targets st) st) = now st) as E1 by (unfold now; by rewrite stop_all_srv).
     destruct (cs_crashed _); done.
@@ -1188,7 +1508,7 @@ Qed.
 Lemma step_crash_kinds cc st it c : cs_crashed st = None → cs_crashed (step cc st it) = Some c →
   match it with
   | ILock _ _ _ | ITryLock _ _ _ => c = CrOutOfSync (length (cs_holds st))
-  | IUnlock _ | IClose => ∃ i, c = CrSendClosed i
+  | IUnlock _ | IUnlockBegin _ | IClose => ∃ i, c = CrSendClosed i
   | IAdvance _ => ∃ i, c = CrRenewFailed i
   | IStep j => c = CrRenewFailed j
   | _ => False
@@ -1199,6 +1519,9 @@ Proof.
   - intros H. by apply do_acquire_crashed in H as (-> & _).
   - intros H. by apply do_acquire_crashed in H as (-> & _).
   - intros H. apply do_unlock_crashed in H as (h & i & r & _ & _ & _ & -> & _); eauto.
+  - intros H. apply do_unlock_begin_crashed in H as (h & i & r & _ & _ & _ & -> & _); eauto.
+  - rewrite do_unlock_send_crashed. congruence.
+  - rewrite do_unlock_end_crashed. congruence.
   - intros H. apply do_close_crashed in H as (n & i & _ & ->); eauto.
   - by apply do_advance_crashed.
   - rewrite set_arm_crashed. congruence.
@@ -1341,6 +1664,9 @@ Proof.
   - by apply (Hacq true name T size).
   - by apply (Hacq false name T size).
   - by destruct K as [? ?].
+  - by destruct K as [? ?].
+  - done.
+  - done.
   - by destruct K as [? ?].
   - by destruct K as [? ?].
   - done.
